@@ -648,3 +648,29 @@ def notify_contract(h):
             h.oblige("every message subscriber is called with (header, message)",
                      And(ev[0][1] == W.msg_subs.descriptor(), len(ev[0][2][0]) == 2, ev[0][2][0][0] is hdr, ev[0][2][0][1] is msg))
     h.cover("notify explored")
+
+
+@oset("socket.subscriptions", ["C12", "C13"], [A + "subscribe_on_connection_changed", A + "unsubscribe_on_connection_changed",
+                                               A + "subscribe_on_message_received", A + "unsubcribe_on_message_received"])
+def subscriptions_contract(h):
+    """The four registration methods touch exactly the set their notification walks (set semantics:
+    twice = once; unsubscribing removes; the other set is untouched)."""
+    if not h.symbolic:
+        return
+    from pyvc.world import SubscriberModel
+    W = SockWorld(h)
+    sock = W.make_socket()
+    s = SubscriberModel(W.w, "s")
+    for sub, unsub, target, other in (("subscribe_on_connection_changed", "unsubscribe_on_connection_changed", W.conn_subs, W.msg_subs),
+                                      ("subscribe_on_message_received", "unsubcribe_on_message_received", W.msg_subs, W.conn_subs)):
+        a = h.method(sock, sub, s)
+        b = h.method(sock, sub, s)
+        h.oblige(f"{sub} twice registers the callable once, in the set its notification walks",
+                 And(a.ok, b.ok, target.added == [s], other.added == [], other.removed == []))
+        c = h.method(sock, unsub, s)
+        h.oblige(f"{unsub} removes it", And(c.ok, target.added == [], target.removed == [s]))
+        d = h.method(sock, unsub, SubscriberModel(W.w, "never-subscribed"))
+        h.oblige(f"{unsub} of a callable that was never subscribed is harmless", d.ok)
+        target.removed.clear()
+    h.oblige("registration transmits nothing and schedules nothing",
+             not [e for e in h.it.path.events if e[0] in ("write", "create_task", "call")])
